@@ -82,6 +82,7 @@ func literalMain(args []string) error {
 	type cs struct {
 		Body  []any `json:"body"`
 		Value []any `json:"value"`
+		Word  string
 	}
 	var cases []cs
 	sc := bufio.NewScanner(f)
@@ -92,6 +93,12 @@ func literalMain(args []string) error {
 			return err
 		}
 		cases = append(cases, c)
+	}
+	// literals whose value spells a word of the language (no escapes: body = value); TLC's enumeration is over a 14-character
+	// alphabet and up to 4-6 characters, these are longer and use other letters
+	for _, w := range []string{"null", "NULL", "true", "false", "none", "and", "or", "not", "in", "between", "contains", "icontains", "sort by", "limit",
+		"skip", "asc", "desc", "from", "where", "isEmpty", "count", "anyOf", "allOf", "datetime(2020-01-02T03:04:05Z)", "1", "1.5", "-1", "s", "s = s"} {
+		cases = append(cases, cs{Word: w})
 	}
 	rep := litReport{BySig: map[string]int{}}
 	add := func(body, want, got, where string) {
@@ -106,6 +113,9 @@ func literalMain(args []string) error {
 	pool := []string{"", "a", "n", "\\", "\"", "\n", "\\n", "\\\\", "a\\", "\\a", "\"\"", "\t", "\\t", "an", "é"}
 	for i, c := range cases {
 		body, want := litStr(c.Body), litStr(c.Value)
+		if c.Word != "" {
+			body, want = c.Word, c.Word
+		}
 		text := `"` + body + `"`
 		rep.Cases++
 		if strings.Contains(body, `\`) {
